@@ -141,7 +141,9 @@ Definition propfail_C06 := pfail (fun x calls => check_C06_group x calls && chec
 Definition mismatches_C07 := mism false pi_untaint_cloud.
 Definition propfail_C07 := pfail (fun x calls => check_C07_group x calls && check_C07_exact x calls).
 Definition mismatches_C08 := mism false pi_taint.       Definition propfail_C08 := pfail check_C08_group.
-Definition mismatches_C09 := mism false pi_decision.    Definition propfail_C09 := pfail check_C09_group.
+Definition mismatches_C09 := mism false pi_decision.    (* C09 on an observed scan: no write touches a cordoned node; and the decision is the one the bands give for the utilisation over
+   the untainted UNCORDONED capacity (the band and acted-on checkers, whose capacity is the model's classification) *)
+Definition propfail_C09 := pfail (fun x calls => check_C09_group x calls && check_C06_group x calls && check_up_attempted x calls).
 Definition mismatches_C10 := mism false pi_removal.
 Definition propfail_C10 := pfail (fun x calls => check_C10_group x calls && check_C10_reuse x calls).
 Definition mismatches_C11 := mismG dry_groups gstate_eqb true pi_writes.     Definition propfail_C11 := pfail check_C11_group.
